@@ -160,6 +160,34 @@ def _cg_inv(n, v):
     }
 
 
+def _cg_native(args):
+    """the real method; the gap-filled fluctuations the postcondition speaks about are rebuilt independently (zeros at the holes)"""
+    import numpy as np
+    from pyvc.native import repo_module
+    from pyvc.driver import Namespace
+    pe = repo_module("pyerrors.obs")
+    o = pe.Obs([np.arange(5.0)], ["x"])
+    g = o._calc_gamma(np.asarray(args["deltas"], dtype=float), args["idx"], args["shape"], args["w_max"], args["fft"], args["gapsize"])
+    idx = list(args["idx"])
+    n = (idx[-1] - idx[0]) // args["gapsize"] + 1
+    E = np.zeros(n)
+    for k, c in enumerate(idx):
+        E[(c - idx[0]) // args["gapsize"]] = args["deltas"][k]
+    return Namespace({"gamma": np.asarray(g), "deltas": E})
+
+
+def _cg_gen(rng, case):
+    g = rng.choice([1, 2, 3])
+    kind = case["idx"]
+    n = rng.randint(2, 9)
+    idx = G.lattice_idl(rng, kind, g, n)
+    if kind == "list" and rng.random() < 0.5 and len(idx) >= 2:
+        idx = [idx[0]] + [c + 7 * g for c in idx[1:]]         # a sparse chain: more holes than measurements
+    if kind == "range":
+        g = idx.step
+    return dict(self=None, deltas=G.reals(rng, len(idx)), idx=idx, shape=len(idx), w_max=rng.randint(1, 2 * len(idx) + 6), fft=case["fft"] == "T", gapsize=g)
+
+
 def _cg_post(a, r):
     g, E = r.gamma, r.deltas          # E: the gap-filled fluctuations (result of _expand_deltas, verified separately)
     return {"len": Len(g) == a.w_max,
@@ -174,7 +202,7 @@ contract(
                         "lattice": ForAll(0, Len(a.idx), lambda i: (At(a.idx, i) - At(a.idx, 0)) % a.gapsize == 0)},
     loops={"for:0": _cg_inv},
     ensures=_cg_post,
-    native_ok=False, crosscheck=False, refute=False,
+    native_call=lambda args: _cg_native(args), gen=lambda rng, case: _cg_gen(rng, case), crosscheck=False, refute=False,
     slice_note="whole body except the final `return gamma`; the postcondition speaks about the local `deltas` after the call of "
                "_expand_deltas (whose own contract relates it to the inputs)",
     note="assumed for the FFT branch: irfft(|rfft(x, P)|^2)[t] is the linear autocorrelation for even P and t <= P - len(x); the "
@@ -540,6 +568,9 @@ def _pk_post(a, r):
     sdict = a.__dict__["_S_dict"] if native else _PK_DICT.d
     sglobal = a.__dict__["_S_global"] if native else _PK_GLOBAL
     out = {}
+    if native:
+        # the analysis of one object must not write into the class-level dictionary (history of the class)
+        out["class-level dictionary untouched"] = a.post.__dict__.get("_S_dict_after") == dict(sdict)
     for e in ("A", "B"):
         if "S" in kw:
             out["explicit.%s" % e] = eq(D(got, e), kw["S"])
@@ -563,6 +594,7 @@ def _pk_native(args):
     pe.Obs.S_dict, pe.Obs.S_global = dict(args["_S_dict"]), args["_S_global"]
     try:
         args["self"].gamma_method(**args["kwargs"])
+        args["_S_dict_after"] = dict(pe.Obs.S_dict)
     finally:
         pe.Obs.S_dict, pe.Obs.S_global = saved
     return None
